@@ -54,4 +54,8 @@ WaitTruthful ==
 NoSignalAfterReap ==
   LET r == LastRet IN
   (r.e = "ret") => \A k \in 1..Len(r.sig) : r.sig[k][1] = 1
+\* nothing is ever recorded as sent to a child that cannot be signalled, and a stop on it never reports a status it did not reap
+KfNoSignal ==
+  LET r == LastRet IN
+  (r.e = "ret" /\ ch[1].kf) => r.sig = <<>>
 =============================================================================
